@@ -24,6 +24,11 @@ TEXT = {
          "Raft.tla with Crash/Restart, monitor clauses over persisted term/vote writes, replies and restarts.", "6 C08"),
  "C14": ("Crash of a real node immediately before/after any of its storage operations (image of the directory, restart through the constructors); "
          "monitors require construction/restart to succeed, no fatal abort, the replayed log to equal the reconstruction, and all safety clauses.", "6 C14"),
+ "C09": ("C01/C02/C07 clauses plus configuration agreement, truthful membership futures, voter-only vote requests, voter-majority elections and commits are evaluated by TLC on recorded "
+         "executions with add / promote / remove requests (incl. the leader) under drops, delays, partitions and crashes, in a free family and in an S5-free family (no node ever two "
+         "configurations behind). Known finding S5 is matched by its signature only.", "6 C09, 12.4"),
+ "C16": ("The scenario driver establishes and maintains a healthy leader (prompt automatic network among a majority, free timers there) after a random prelude, while the adversary owns every "
+         "other node's links, timer, crashes and restarts; the monitor requires the leader to keep leading and no term of the majority to grow while the period lasts.", "6 C16"),
  "C12": ("LogStore.tla models the log file at system-call grain (two writes per record, fsync, ftruncate, temp file + rename) with a crash between any two calls and inside a write; "
          "TLC checks Recover/InMemoryIsReturned/FileDenotesLog exhaustively. On the code, operation programs run through the public Log API in a driver process that is killed by a real "
          "SIGKILL on entry to every storage system call (strace fault injection), plus byte prefixes of interrupted appends; every image is reopened, extended and reopened again and the "
